@@ -283,7 +283,7 @@ def sigFromPy(pobj):
         vtype = type(pobj[0])
         same = True
         for v in pobj[1:]:
-            if not isinstance(v, vtype):
+            if type(v) is not vtype:
                 same = False
         if same:
             return 'a' + sigFromPy(pobj[0])
@@ -302,7 +302,7 @@ def sigFromPy(pobj):
             if vtype is None:
                 vtype = type(v)
                 vfirst = v
-            elif not isinstance(v, vtype):
+            elif type(v) is not vtype:
                 same = False
         if same:
             return 'a{' + sigFromPy(k) + sigFromPy(vfirst) + '}'
